@@ -124,4 +124,34 @@ theorem frozenset_deep_distance (cfg : DCfg) (hp : Diff.Plain cfg) (al : Align) 
     unfold setAddedL at *; omega
   omega
 
+theorem frozenset_deepDiff (cfg : DCfg) (hp : Diff.Plain cfg) (al : Align) (hashOf : PyVal → String) (xs ys : List PyVal) :
+    deepDiff cfg al hashOf (.frozenset xs) (.frozenset ys) = ⟨diffSet hashOf [] xs ys, []⟩ := by
+  have hnoiter : ∀ e ∈ diffSet hashOf [] xs ys, e.1 ≠ Cat.iterAdded ∧ e.1 ≠ Cat.iterRemoved := by
+    intro e he
+    rw [diffSet_root] at he
+    rcases List.mem_append.1 he with h | h <;> obtain ⟨x, _, rfl⟩ := List.mem_map.1 h <;> exact ⟨by simp [fSA, fSR], by simp [fSA, fSR]⟩
+  unfold deepDiff
+  simp only [skipSteps_plain hp, Bool.false_eq_true, if_false, diffV, keepReported_plain hp]
+  split
+  · rfl
+  · simp only [mutualAddRemoves_noiter _ hnoiter]
+
+/-- **positive when the diff is non-empty**, for frozensets of scalars without `None` -/
+theorem frozenset_deep_pos (cfg : DCfg) (hp : Diff.Plain cfg) (al : Align) (hashOf : PyVal → String)
+    (xs ys : List PyVal) (hbx : ∀ x ∈ xs, isBasic x = true ∧ x ≠ .none) (hby : ∀ y ∈ ys, isBasic y = true ∧ y ≠ .none)
+    (hne : (deepDiff cfg al hashOf (.frozenset xs) (.frozenset ys)).tree ≠ []) :
+    0 < (deepDistance cfg al hashOf (.frozenset xs) (.frozenset ys)).1 := by
+  rw [(frozenset_deep_distance cfg hp al hashOf xs ys (fun x hx => (hbx x hx).1) (fun y hy => (hby y hy).1)).1]
+  rw [frozenset_deepDiff cfg hp al hashOf xs ys, diffSet_root] at hne
+  simp only [ne_eq, List.append_eq_nil_iff, List.map_eq_nil_iff] at hne
+  have hne' : setAddedL hashOf xs ys ≠ [] ∨ setRemovedL hashOf xs ys ≠ [] := by
+    by_cases h : setAddedL hashOf xs ys = []
+    · exact Or.inr (fun h' => hne ⟨h, h'⟩)
+    · exact Or.inl h
+  rcases hne' with h | h
+  · have := itemLenL_pos _ h (fun y hy => hby y (List.mem_filter.1 hy).1)
+    omega
+  · have := itemLenL_pos _ h (fun x hx => hbx x (List.mem_filter.1 hx).1)
+    omega
+
 end Dist
